@@ -28,7 +28,20 @@ Bindings to the code:
          mixed / square, rectilinear periodic, boundary, interfaces, refined, take, refined_by,
          union) are read off the real objects and their recorded lookups, f_index, f_coords,
          interface chains + element geometries and locate() results are validated by TLC.
-Spec mutants (wrong swap entry, three wrong Lookup variants) must violate the invariants.
+  ApplyCache.tla       machine: the memo of coordinate maps (types.lru_cache around Matrix.apply / Square.invapply /
+                       Square.transform_poly): buffers with addresses that are re-used after destruction, strided /
+                       transposed / reversed / read-only views, in-place writes, dropped references, calls (bypass /
+                       hit / miss); invariants Transparent (a call returns the image of the argument passed),
+                       EntriesFresh, KeysDistinct, NoLeak
+  Locate.tla           machine: histories of locate() calls on one topology object with the memo of the affine fit
+                       (argument-free and argument-dependent geometry objects, argument values incl. reversed and
+                       sheared maps, targets on element boundaries / outside, removed elements); invariants ImageOK,
+                       PickedContains, OutsideRaises, InsideLocated, MemoSound
+  (S->C) ApplyCache behaviours replayed with real numpy views on the real items (c11_cache), Locate behaviours on real
+         StructuredTopology / SubsetTopology / group wrappers / generic search (c11_locate); the argument sequences of
+         Locate behaviours are also run on simplex and mixed meshes and judged by TraceTopo (C->S)
+Spec mutants (wrong swap entry, three wrong Lookup variants, cache key without strides, no finalizer, own-flag-only
+writeable test, memo of argument-dependent fits) must violate the invariants.
 """
 
 import collections
@@ -37,7 +50,7 @@ import os
 import random
 
 from .. import tlc, exprs
-from . import c11_items as ci, c11_chain, c11_seq, c11_trace
+from . import c11_items as ci, c11_chain, c11_seq, c11_trace, c11_cache, c11_locate
 
 LEVEL = 'model_checking'
 
@@ -45,6 +58,10 @@ CHAIN_ACTIONS = ['AddChild', 'AddEdge', 'StartCanonical', 'StartUppermost', 'Sta
                  'UpperSwap', 'UpperSkip', 'UpperExit', 'Refeed']
 SEQ_OPS = ['refined', 'boundary', 'interfaces', 'slice', 'mask', 'reorder', 'derive', 'plain', 'chainindex', 'split']
 LOOKUP_MUTANTS = ['masked-offbyone', 'reorder-forward', 'derived-nocanon']
+CACHE_ACTIONS = ['Alloc', 'MkView', 'Mutate', 'Drop', 'CallBypass', 'CallHit', 'CallMiss']
+CACHE_TOGGLES = ['KeyStrides', 'Finalizer', 'CheckBases']
+LOCATE_ACTIONS = ['CallFree', 'CallFreeExtraArgs', 'CallWithArgs']
+MUTANT_INVARIANT = dict(rewrite='MapPreserved', seq='LookupCorrect', cache='Transparent', locate='ImageOK')
 
 
 def _cfg_with(name, **subst):
@@ -77,6 +94,20 @@ def plan(tier, seed):
         muts = LOOKUP_MUTANTS
     for m in muts:
         jobs['seq-mutant-' + m] = ('SeqNesting', dict(cfg_text=_cfg_with('SeqNesting_mutant.cfg', LookupMutant='"{}"'.format(m)), workers=2), True)
+    # the memo of coordinate maps and locate with its memo
+    if tier == 'quick':
+        jobs['cache'] = ('ApplyCache', dict(cfg='ApplyCache.cfg', coverage=True, workers=1), True)
+        jobs['locate'] = ('Locate', dict(cfg='Locate.cfg', coverage=True, workers=2), True)
+    else:
+        jobs['cache'] = ('ApplyCache', dict(cfg='ApplyCache_thorough.cfg', coverage=True, workers=1, timeout=1500), True)
+        jobs['locate'] = ('Locate', dict(cfg='Locate_thorough.cfg', coverage=True, workers=8, timeout=1500, heap='8g'), True)
+        jobs['locate-wide'] = ('Locate', dict(cfg='Locate_wide.cfg', workers=4, timeout=1500), True)
+    nc, nl = (240, 90) if tier == 'quick' else (3000, 1200)
+    jobs['cache-sim'] = ('ApplyCache', dict(cfg='ApplyCache_sim.cfg', simulate=dict(num=nc), depth=13, seed=seed, workers=1, timeout=800), False)
+    jobs['locate-sim'] = ('Locate', dict(cfg='Locate_sim.cfg', simulate=dict(num=nl), depth=4, seed=seed, workers=1, timeout=800), False)
+    for tog in ([CACHE_TOGGLES[seed % len(CACHE_TOGGLES)]] if tier == 'quick' else CACHE_TOGGLES):
+        jobs['cache-mutant-' + tog] = ('ApplyCache', dict(cfg_text=_cfg_with('ApplyCache_mutant.cfg', **{tog: 'FALSE'}), workers=1), True)
+    jobs['locate-mutant'] = ('Locate', dict(cfg='Locate_mutant.cfg', workers=1), True)
     return jobs
 
 
@@ -100,6 +131,12 @@ def run(rep):
     rep.constants['ChainRewrite'] = 'references of dimension <= 3 (simplices and tensor products); chains of <= {} items exhaustively{}'.format(
         '2 (<= 3 for dimension <= 2)' if quick else 3, '' if quick else ', <= 6 items by simulation')
     rep.constants['SeqNesting'] = 'bases line/square/cube (periodic variants), Index with simplex/mixed/prism references; <= {} topology operations, <= {} wrappers exhaustively; simulation to 2 operations + 3 wrappers; <= 16 elements; tails of <= 2 items'.format(*((1, 1) if quick else (2, 2)))
+    rep.constants['ApplyCache'] = ('2 allocations on 2 addresses (freed addresses are re-used), 3 arrays, 2 items, views a[::2] a[:2] a[:2].T a[1::2] a[1:3]{} '
+                                   'of a 4x2 buffer, frozen / writeable / read-only view of writeable, <= {} operations exhaustively (one route per distinct state and last call); '
+                                   'random walks of 12 operations over 3 allocations, 6 arrays, all views incl. a[2:] a[::-1]').format(*(('', 5) if quick else (' a[::-1]', 6)))
+    rep.constants['Locate'] = ('topologies line3, line4 refined, line[1:3], line4 minus an element, rect 3x2, rect refined+sliced, rect 3x3 minus centre; geometry objects F1 F2 (argument free) '
+                               'and P (arguments: 5 maps in 1-D, 6 in 2-D incl. reversed axis and shear); 5 target sequences x own/common map; histories of <= {} calls exhaustively, '
+                               'random histories of 3 calls').format(2 if quick else 3)
 
     # ---- all TLC runs concurrently; the table export and the recording of real topologies happen meanwhile
     with concurrent.futures.ThreadPoolExecutor(max_workers=len(jobs) + 3) as pool:
@@ -108,6 +145,8 @@ def run(rep):
         ftab = pool.submit(c11_chain.run_tables, tpath)
         seqcases = c11_trace.seq_cases(rep, rng)
         loccases, locfails = c11_trace.locate_cases(rep, rng)
+        hcases, hfails = c11_trace.locate_history_cases(rep, rng)
+        loccases, locfails = loccases + hcases, locfails + hfails
         ftrace = pool.submit(c11_trace.validate, seqcases + loccases, 'trace')
         rep.lap('tables exported, real topologies recorded')
         results = dict(f.result() for f in futures)
@@ -122,7 +161,7 @@ def run(rep):
     for name, res in results.items():
         exhaustive = jobs[name][2]
         if 'mutant' in name:
-            want = 'MapPreserved' if name.startswith('rewrite') else 'LookupCorrect'
+            want = MUTANT_INVARIANT[name.split('-')[0]]
             if res.violated != want:
                 raise RuntimeError('spec mutant {} does not violate {} (violated={}): the invariant is vacuous'.format(name, want, res.violated))
             rep.extra.setdefault('spec_mutants_killed', []).append(name)
@@ -130,10 +169,11 @@ def run(rep):
         rep.add_tlc(res, exhaustive=exhaustive)
         if res.violated:
             raise RuntimeError('design spec {} violates {}:\n{}'.format(name, res.violated, '\n'.join(res.error_trace[:60])))
-    cov = results['rewrite'].coverage
-    missing = [a for a in CHAIN_ACTIONS if cov.get(a, (0, 0))[1] == 0]
-    if missing:
-        raise RuntimeError('ChainRewrite: actions never taken: {}'.format(missing))
+    for job, spec, actions in (('rewrite', 'ChainRewrite', CHAIN_ACTIONS), ('cache', 'ApplyCache', CACHE_ACTIONS), ('locate', 'Locate', LOCATE_ACTIONS)):
+        cov = results[job].coverage
+        missing = [a for a in actions if cov.get(a, (0, 0))[1] == 0]
+        if missing:
+            raise RuntimeError('{}: actions never taken: {}'.format(spec, missing))
 
     # ---- S->C: chain rewriting
     behaviours = []
@@ -210,6 +250,14 @@ def run(rep):
         rep.sample(dict(nesting=c11_seq.expr_str(b['expr']), route=[h['op'] for h in b['hist']], elements=len(b['den'])))
     rep.lap('sequence replay')
 
+    # ---- S->C: the memo of coordinate maps
+    _replay_cache(rep, results)
+    rep.lap('cache replay')
+
+    # ---- S->C: locate with its memo
+    _replay_locate(rep, results)
+    rep.lap('locate replay')
+
     # ---- C->S: real topologies (verdicts of TraceTopo)
     for f in locfails:
         rep.violation(*f)
@@ -245,7 +293,8 @@ def run(rep):
     rep.lap('trace validation')
 
     rep.rule = ('cases = adjacent item pairs of the swap tables, rewritten chains (non-trivial: the rewriting changed the chain), nestings of '
-                'Transforms constructors (non-trivial: at least one operation on the base), recorded real topologies and locate calls')
+                'Transforms constructors (non-trivial: at least one operation on the base), recorded real topologies and locate calls, '
+                'cache behaviours per binding (non-trivial: at least one call goes through the cache), locate histories per route (non-trivial: at least one call locates)')
     rep.assumptions += [
         'items are Index, Identity, SimplexChild/Edge (ndims <= 3), TensorChild/Edge1/Edge2 and ScaledUpdim; flipped (inverted) edges, '
         'trimmed references and PlainTransforms of trimmed boundaries are outside the model (such real topologies are skipped and counted)',
@@ -253,8 +302,85 @@ def run(rep):
         'geometry in the structured replays is the root coordinate (unit cells); locate is validated for affine geometries only',
         'locate raising for targets that all lie inside the domain is counted (locate_raised_though_inside), not judged: the property allows raising',
         'sequences queried with chains of absent elements (must raise) are not judged: the property only speaks about chains of elements of the sequence',
+        'ApplyCache: one dtype (float64); a frozen buffer is frozen before any view of it exists and stays frozen (types.frozenarray(copy=False) on an array that '
+        'still has writeable views, and switching the writeable flag back on, are outside the model); re-use of a freed address is obtained from numpy by '
+        're-allocating until the pointer matches (cache_replay.reuse_achieved of reuse_wanted)',
+        'Locate: geometries are affine (axis aligned incl. reversed, or sheared) with dyadic data, tol / eps = 2^-30, outside targets lie at least half an element '
+        'outside; a LocateError although every target lies in an element (e.g. on the boundary to a removed element) is counted (raised_though_inside), not judged',
     ]
 
 
 def _replay_chunk(chunk):
     return dict(res=[c11_chain.replay_one(b) for b in chunk])
+
+
+def _dedupe(items):
+    out, prev = [], None
+    for it in items:
+        if it != prev:
+            out.append(it)
+        prev = it
+    return out
+
+
+def _replay_cache(rep, results):
+    """ApplyCache behaviours on the real lru_cache wrapped methods: the cover of all (state, last call) of the exhaustive
+    run, each on one binding in turn, and the random walks on every binding"""
+    import json
+    cover = sorted(results['cache'].emitted, key=lambda h: json.dumps(h, sort_keys=True))
+    walks = _dedupe(results['cache-sim'].emitted)
+    if not cover or not walks:
+        raise RuntimeError('ApplyCache: no behaviours emitted (cover {}, walks {})'.format(len(cover), len(walks)))
+    nb = len(c11_cache.BINDINGS)
+    jobs = [dict(hist=h, binding=c11_cache.BINDINGS[(n + rep.seed) % nb], origin=('flags', 'arraydata')[(n // nb) % 2]) for n, h in enumerate(cover)]
+    jobs += [dict(hist=h, binding=b, origin=('flags', 'arraydata')[(n + k) % 2]) for n, h in enumerate(walks) for k, b in enumerate(c11_cache.BINDINGS)]
+    chunks = [jobs[i::32] for i in range(32)]
+    outs = exprs.pmap(c11_cache.replay_chunk, chunks, chunksize=1)
+    stats = collections.Counter()
+    for chunk, out in zip(chunks, outs):
+        if 'harness_error' in out:
+            raise RuntimeError(out['harness_error'])
+        for job, res in zip(chunk, out['res']):
+            ops = tuple((o['op'], o['kind'], o['flag'], o['how']) for o in job['hist'])
+            rep.case(('cache', job['binding'], ops), nontrivial=any(o['how'] in ('hit', 'miss') for o in job['hist']))
+            stats.update(res['stats'])
+            stats['replays'] += 1
+            for key, what, detail in res['fails']:
+                rep.violation(key, what, dict(binding=job['binding'], origin=job['origin'], hist=[{k: v for k, v in o.items() if k != 'want'} for o in job['hist']], detail=detail))
+            if not res['fails']:
+                rep.traces += 1
+    if not stats['reuse_achieved'] or not stats['hits']:
+        raise RuntimeError('ApplyCache replay is vacuous: address re-use achieved {} times, {} hits'.format(stats['reuse_achieved'], stats['hits']))
+    rep.extra['cache_replay'] = dict(stats, cover_behaviours=len(cover), random_walks=len(walks))
+    rep.sample(dict(cache_behaviour=[{k: v for k, v in o.items() if k in ('op', 'b', 'v', 'kind', 'flag', 't', 'how')} for o in walks[0]]))
+
+
+def _replay_locate(rep, results):
+    behaviours = _dedupe(results['locate-sim'].emitted)
+    if not behaviours:
+        raise RuntimeError('Locate: no behaviours emitted')
+    for b in behaviours:     # the C->S histories on simplex meshes use the same argument values
+        for c in b['hist']:
+            if len(c['m']['s']) == 2 and c['m'] not in c11_trace.ARGVALS_2D:
+                raise RuntimeError('Locate.tla ArgVals(2) and c11_trace.ARGVALS_2D differ: {}'.format(c['m']))
+    jobs = c11_locate.jobs_for(behaviours, rep.seed)
+    outs = exprs.pmap(c11_locate.replay, jobs, chunksize=2)
+    stats = collections.Counter()
+    for job, out in zip(jobs, outs):
+        if 'harness_error' in out:
+            raise RuntimeError(out['harness_error'])
+        beh = job['beh']
+        sig = (beh['topo']['id'], job['variant'], tuple((c['g'], c['hasargs'], str(c['m']), c['tsi'], c['own']) for c in beh['hist']))
+        rep.case(('locate-history', ) + sig, nontrivial=any(not c['raised'] for c in beh['hist']))
+        stats.update(out['stats'])
+        stats['replays'] += 1
+        stats['replays_' + job['variant']] += 1
+        for key, what, detail in out['fails']:
+            rep.violation(key, what, detail)
+        if not out['fails']:
+            rep.traces += 1
+    if not stats['located'] or not stats['raised'] or not stats['memo'] or not stats['ties']:
+        raise RuntimeError('Locate replay is vacuous: {}'.format(dict(stats)))
+    rep.extra['locate_replay'] = dict(stats, behaviours=len(behaviours))
+    b = behaviours[0]
+    rep.sample(dict(locate_behaviour=dict(topo=b['topo']['id'], calls=[dict(g=c['g'], m=c['m'], targets=c['ts'], raised=c['raised'], path=c['path']) for c in b['hist']])))
